@@ -75,7 +75,14 @@ func (o *c09Oracle) AfterTx(s *Sim, r *Replica, idx int, raw []byte, st mkvs.Key
 			}
 		}
 	}
-	tookEffect := res.Code == 0 || changed
+	// A transaction took effect when it succeeded, when it changed state, or when it was executed
+	// at all: gas is charged only after authentication (signature, nonce, fee), so a result that
+	// reports used gas belongs to a transaction that passed it - its nonce must have advanced even
+	// if everything else was rolled back.
+	tookEffect := res.Code == 0 || changed || res.GasUsed > 0
+	if res.Code != 0 && !changed && res.GasUsed > 0 {
+		s.St.Inc("probe.c09.executed_without_state_change")
+	}
 	h := hash.NewFromBytes(raw)
 	what := fmt.Sprintf("height %d tx %d (%s from signer %d, nonce %d, mutation %q, result %s/%d)", s.Height+1, idx, b.Op.Kind, b.Op.From, b.Nonce, b.Op.Mut, res.Codespace, res.Code)
 	if !tookEffect {
